@@ -8,7 +8,8 @@ Open Scope Z_scope.
    (was the released message put back? did the acquire hand out a recycled message?) *)
 Inductive case :=
 | Trace (maxpool : Z) (t : list lc)
-| PoolSeq (maxpool : Z) (ops : list sop).
+| PoolSeq (maxpool : Z) (ops : list sop)
+| Hung (t : list lc).   (* the scenario did not return (or panicked); t = what had been recorded by then *)
 
 (* the observed trace must be a run of the pool automaton: classes 1-5 are ownership violations (property),
    6 means the implementation left the automaton (recycle without release, hand-out of a non-pooled object);
@@ -17,9 +18,10 @@ Definition agrees (c : case) : bool :=
   match c with
   | Trace mx t => negb (N.eqb (check t) 6) && (pooled_after t <=? mx)
   | PoolSeq mx ops => seq_ok mx 0 0 ops
+  | Hung _ => false   (* the model has no hanging or panicking run *)
   end.
 
-Definition pclass (c : case) : N := match c with Trace _ t => c12_class t | PoolSeq _ _ => 0%N end.
+Definition pclass (c : case) : N := match c with Trace _ t | Hung t => c12_class t | PoolSeq _ _ => 0%N end.
 
 Definition mismatches (cs : list case) : list N := bad_indices (fun c => negb (agrees c)) cs.
 Definition property_failures (cs : list case) : list (N * N) := classes pclass cs.
